@@ -73,6 +73,14 @@ claim("C05", "sched+seqbfs",
       "virtual event loop; bounds as C04; known finding: latest keeps the delivered element's reference until replaced (test-pinned)",
       "DESIGN.md §3 C05")
 
+claim("C18", "sched",
+      "bounded exhaustive enumeration of start/stop histories at every suspension point of the real sources (ICB on a virtual clock)",
+      "from_periodic, from_iterable (iterator) and from_textfile with gated and synchronous consumers: every history of <= L start/stop calls (calls are deviation-free, so start();stop();start() "
+      "in one loop turn is covered) placed before the first cycle, during the sleep, during a backpressured emit and between items, interleaved with consumer completions and ticks; "
+      "oracle: no two cycles within one interval / no item twice or out of order / none lost, no cycle begins while stopped, next item only after downstream finished, a started source does poll.",
+      "virtual loop and clock, sources given the loop explicitly; L<=4 quick / 5 thorough; deviations <=1 (other events)",
+      "DESIGN.md §3 C18")
+
 ALL = ["C%02d" % i for i in range(1, 21)]
 
 
